@@ -278,6 +278,16 @@ func (s *structure) diagnose(p *pagedoc.TPara, k int) paraDiag {
 		qf := s.facts[id]
 		flags["in-oof"] = true
 		flags["oof-has-"+q.Role] = true
+		if q.Block && q.AvoidParent {
+			// a block-level out-of-flow box that is a child of a container with break-inside: avoid
+			flags["oof-child-of-avoid"] = true
+			if q.Role == "float" {
+				flags["oof-float-child-of-avoid"] = true
+			}
+		}
+		if q.Block && q.AvoidAnc {
+			flags["oof-below-avoid"] = true
+		}
 		if len(qf.boxPages) == 0 {
 			flags["oof-none"] = true
 			if q.Block {
@@ -298,7 +308,7 @@ func (s *structure) diagnose(p *pagedoc.TPara, k int) paraDiag {
 		}
 		chain = append(chain, map[string]interface{}{"id": id, "role": q.Role, "block_level": q.Block, "box_pages": qf.boxPages, "line_pages": qf.linePages})
 	}
-	for _, k := range []string{"in-oof", "oof-has-float", "oof-has-abspos", "oof-none", "oof-none-block", "oof-docend", "oof-split", "oof-twice"} {
+	for _, k := range []string{"in-oof", "oof-has-float", "oof-has-abspos", "oof-child-of-avoid", "oof-float-child-of-avoid", "oof-below-avoid", "oof-none", "oof-none-block", "oof-docend", "oof-split", "oof-twice"} {
 		if flags[k] {
 			dg.Tags = append(dg.Tags, k)
 		}
